@@ -36,7 +36,7 @@ func parse[N Node](ps *parser, n N) parsed[N] {
 	n.n().From = begin
 	n.parse(ps)
 	n.n().To = ps.pos
-	n.n().sourceText = ps.src[begin:ps.pos]
+	n.n().sourceText = ps.src[n.n().From:ps.pos]
 	return parsed[N]{n}
 }
 
